@@ -144,7 +144,7 @@ class Hamiltonian(SelfAdjointOperator, BasisManaged, EnergyUnitsManaged):
         if coupling_cutoff is None:
             SS = super().diagonalize()
             if self._has_remainder_coupling:
-                self.JR = numpy.dot(SS.T,numpy.dot(self.JR,SS))
+                self.JR = numpy.dot(numpy.conj(SS.T),numpy.dot(self.JR,SS))
             self.SS = SS
             return SS
         else:
@@ -158,7 +158,7 @@ class Hamiltonian(SelfAdjointOperator, BasisManaged, EnergyUnitsManaged):
             for ii in range(0,self._data.shape[0]):
                 self._data[ii,ii] = dd[ii]
             # transform the remainder of couling correspondingly
-            self.JR = numpy.dot(SS.T,numpy.dot(self.JR,SS))
+            self.JR = numpy.dot(numpy.conj(SS.T),numpy.dot(self.JR,SS))
             self.SS = SS
             return self.SS, self.JR
             
@@ -174,9 +174,12 @@ class Hamiltonian(SelfAdjointOperator, BasisManaged, EnergyUnitsManaged):
             used in diagonalization back to the Hamiltonian.
         
         """
-        self.data = numpy.dot(self.SS,numpy.dot(self.data,self.SS.T))
+        # the inverse of the (unitary) diagonalization matrix is its Hermitian
+        # conjugate; the transposition alone only for a real Hamiltonian
+        S1 = numpy.conj(self.SS.T)
+        self.data = numpy.dot(self.SS,numpy.dot(self.data,S1))
         if self._has_remainder_coupling:
-            self.JR = numpy.dot(self.SS,numpy.dot(self.JR,self.SS.T))
+            self.JR = numpy.dot(self.SS,numpy.dot(self.JR,S1))
         if with_remainder and self._has_remainder_coupling:                
             self.data += self.JR
 
